@@ -1049,7 +1049,7 @@ public:
                 
                 case csv_parse_state::expect_comment_or_record:
                     buffer_.clear();
-                    if (curr_char == comment_starter_)
+                    if (comment_starter_ != char_type() && curr_char == comment_starter_)
                     {
                         state_ = csv_parse_state::comment;
                         ++column_;
